@@ -123,6 +123,19 @@ def c15_pass(prefix: str) -> List[Dict[str, Any]]:
                   lambda: {'out': Bid.level_suit_to_bid(level, Suit(s + 1)).idx})
     for t in sorted({str(Bid(a + 1)) for a in range(38)}):
         R.add('bid.from_str', {'text': t}, lambda: {'out': Bid.str_to_bid(_fresh(t)).idx})
+    # things that are nobody's notation: refused, or else a notation all the same
+    for t in ['C12', 'S14', 'C1_1', 'H 7', 'S+3', 'D10', 'C1', 'CX', 'cq', 'Cq', 'C', 'CQQ', 'QC', 'H11', 'D02']:
+        R.add('card.from_str', {'text': t, 'probe': True}, lambda: {'out': int(Card.str_to_card(_fresh(t)))})
+    for (level, s_) in [(8, 0), (8, 1), (8, 2), (8, 3), (8, 4), (0, 3), (0, 4), (9, 4), (-1, 0)]:
+        R.add('bid.from_level_suit', {'level': level, 'suit': s_, 'probe': True},
+              lambda: {'out': Bid.level_suit_to_bid(level, Suit(s_ + 1)).idx})
+    for a in (-1, 38, 39, 100, -38):
+        R.add('bid.from_int', {'a': a, 'probe': True}, lambda: {'out': Bid.int_to_bid(a).idx})
+    for a in (-1, 52, 53, 100):
+        R.add('card.from_int', {'a': a, 'probe': True},
+              lambda: (lambda c: {'rank': c.rank, 'suit': c.suit.value - 1})(Card.int_to_card(a)))
+    for t in ['8C', '0NT', '1N', 'pass', '1c', 'x', '1', 'NT']:
+        R.add('bid.from_str', {'text': t, 'probe': True}, lambda: {'out': Bid.str_to_bid(_fresh(t)).idx})
     for a in range(4):
         def props(a=a):
             p = Player(a + 1)
